@@ -149,15 +149,34 @@ fn changes_digest(c: &Changes) -> (u64, u64) {
     (d64(&b), cnt)
 }
 
-/// variant tag of an executor error (never the message text)
+pub const TAG_EXPIRED: u64 = 1001;
+pub const TAG_INVALID_EXPIRATION: u64 = 1002;
+
+/// variant tag of an executor error (never the message text).  Two variants get fixed tags
+/// because the known class "expired transaction delivered as CheckedTransaction" is made of them.
 fn err_tag(e: &ExecutorError) -> u64 {
     let s = format!("{e:?}");
+    if s.starts_with("TransactionExpired(") {
+        return TAG_EXPIRED;
+    }
+    if s == "InvalidTransaction(Validity(TransactionExpiration))" {
+        return TAG_INVALID_EXPIRATION;
+    }
     let name: String = s.chars().take_while(|c| c.is_alphanumeric() || *c == '_').collect();
-    d64(name.as_bytes()) % 100_000
+    2000 + d64(name.as_bytes()) % 100_000
+}
+
+/// digest of the error's content; the text of RelayerError / StorageError comes from outside the
+/// executor and crosses the boundary as a result code only, so it is not compared
+fn err_text(e: &ExecutorError) -> u64 {
+    match e {
+        ExecutorError::RelayerError(_) | ExecutorError::StorageError(_) => 0,
+        _ => d64(format!("{e:?}").as_bytes()),
+    }
 }
 
 fn err_t(e: &ExecutorError) -> T {
-    T::l(vec![n(1), n(err_tag(e)), n(d64(format!("{e:?}").as_bytes()))])
+    T::l(vec![n(1), n(err_tag(e)), n(err_text(e))])
 }
 
 fn ser<X: serde::Serialize>(x: &X) -> u64 {
@@ -189,7 +208,7 @@ fn produce_t(params: &ConsensusParameters, r: &Result<(ExecutionResult, Changes)
                 n(events.len() as u64),
                 T::l(skipped_transactions
                     .iter()
-                    .map(|(id, e)| T::l(vec![n(d64(id.as_ref())), n(err_tag(e)), n(d64(format!("{e:?}").as_bytes()))]))
+                    .map(|(id, e)| T::l(vec![n(d64(id.as_ref())), n(err_tag(e)), n(err_text(e))]))
                     .collect()),
                 n(calls as u64),
             ])
@@ -426,6 +445,18 @@ pub fn run(input: &T) -> T {
 
         let (rn, cn) = produce(&w, &plan, false);
         let (rw, cw) = produce(&w, &plan, true);
+        if std::env::var_os("HWASM_DEBUG").is_some() {
+            for (tag, r) in [("native", &rn), ("wasm", &rw)] {
+                match r {
+                    Ok((res, _)) => {
+                        for (id, e) in res.skipped_transactions.iter() {
+                            eprintln!("{tag} block {b} skipped {id}: {e:?}");
+                        }
+                    }
+                    Err(e) => eprintln!("{tag} block {b} produce error: {e:?}"),
+                }
+            }
+        }
         let pn = produce_t(&w.params, &rn, cn);
         let pw = produce_t(&w.params, &rw, cw);
         let mut vn = T::l(vec![]);
